@@ -53,7 +53,24 @@ pub fn install_panic_hook() {
             "non-string panic payload".to_string()
         };
         let (file, line) = info.location().map(|l| (l.file().to_string(), l.line())).unwrap_or(("?".to_string(), 0));
-        *LAST_PANIC.lock().unwrap_or_else(|e| e.into_inner()) = Some((msg, file, line));
+        // innermost frame that belongs to the code under test (crate `rws` or one of its dependencies):
+        // names the function whose unwrap / index / arithmetic failed, so that signatures do not need line numbers
+        let bt = std::backtrace::Backtrace::force_capture().to_string();
+        let mut func = "?".to_string();
+        for l in bt.lines() {
+            let t = l.trim();
+            if let Some(pos) = t.find(": ") {
+                let name = &t[pos + 2..];
+                if name.starts_with("rws::") || name.starts_with("<rws::") || name.starts_with("file_ext::") || name.starts_with("url_build_parse::") || name.starts_with("url_search_params::") {
+                    if name.contains("verif_hooks") { continue; }
+                    func = name.split("::h").next().unwrap_or(name).to_string();
+                    // strip the trailing hash if present
+                    if let Some(i) = name.rfind("::h") { if name.len() - i == 19 { func = name[..i].to_string(); } }
+                    break;
+                }
+            }
+        }
+        *LAST_PANIC.lock().unwrap_or_else(|e| e.into_inner()) = Some((msg, format!("{}|{}", file, func), line));
     }));
 }
 
@@ -459,13 +476,9 @@ pub fn run_op(op: &str, fields: &[Vec<u8>]) -> OpResult {
             o.s(&s);
         }),
         "b64.decode" => {
-            let b = f.bytes();
-            match String::from_utf8(b) {
-                Ok(s) => res(Base64::decode(s), |o, v| {
-                    o.b(&v);
-                }),
-                Err(_) => Err("harness: input is not UTF-8, cannot be passed as String".to_string()),
-            }
+            res(Base64::decode(f.string()), |o, v| {
+                o.b(&v);
+            })
         }
         "b64.roundtrip" => {
             let b = f.bytes();
